@@ -138,8 +138,10 @@ def _unknown_version_failure(rt, vlevel, VN, header_has_VN, parse_ok):
     return True          # accepted (e.g. not validated at this level): nothing to compare
 
 
-def add_line_unknown_version(rt, vlevel, VN, header_has_VN, segment_version, line_can_be_parsed=True, header_can_be_merged=True):
+def add_line_unknown_version(rt, vlevel, VN, header_has_VN, segment_version, line_can_be_parsed=True, header_can_be_merged=True, dialect_is_rgfa=False):
     """replay of a counter-model of Creators.__add_line_unknown_version on a real Gfa"""
+    if dialect_is_rgfa and line_can_be_parsed and header_can_be_merged:
+        return _unknown_version_rgfa(rt, vlevel, VN, header_has_VN, segment_version)
     if not line_can_be_parsed or not header_can_be_merged:
         return _unknown_version_failure(rt, vlevel, VN, header_has_VN, line_can_be_parsed)
     texts = {"#": "# c", "H": "H\tVN:Z:%s" % VN if header_has_VN else "H\txx:i:1",
@@ -174,6 +176,28 @@ def add_line_unknown_version(rt, vlevel, VN, header_has_VN, segment_version, lin
             return "a queued custom record was accepted into a GFA1 graph (queue processed before the version was set)"
         if want_version[rt] == "gfa2" and not ok:
             return "a queued custom record was refused although the version is gfa2"
+    return True
+
+
+def _unknown_version_rgfa(rt, vlevel, VN, header_has_VN, segment_version):
+    """a Gfa of the rGFA dialect whose version is not known yet: a line that would make it GFA2 is refused with VersionError and nothing is kept"""
+    texts = {"#": "# c", "H": "H\tVN:Z:%s" % VN if header_has_VN else "H\txx:i:1",
+             "S": "S\tA\t*\tSN:Z:chr1\tSO:i:0\tSR:i:0" if segment_version == "gfa1" else "S\tA\t8\t*", "E": "E\t*\tA+\tA-\t0\t2\t0\t2\t*", "F": "F\tA\tx+\t0\t2\t0\t2\t*",
+             "G": "G\tg1\tA+\tB-\t10\t*", "U": "U\tu\tA", "O": "O\to\tA+", "L": "L\tA\t+\tA\t-\t0M", "C": "C\tA\t+\tB\t+\t0\t*", "P": "P\tp\tA+\t*", "X": "X\tq"}
+    makes2 = (rt == "S" and segment_version == "gfa2") or rt in "EFGUO" or (rt == "H" and header_has_VN and VN == "2.0")
+    g = gfapy.Gfa(vlevel=vlevel, dialect="rgfa")
+    before = (g.version, str(g), len(g._line_queue), g._n_input_header_lines)
+    try:
+        g.add_line(texts[rt])
+    except gfapy.VersionError:
+        if not makes2 and not (rt == "H" and header_has_VN and VN not in ("1.0", "2.0")):
+            return "rGFA: VersionError for %r" % texts[rt]
+        after = (g.version, str(g), len(g._line_queue), g._n_input_header_lines)
+        return True if after == before else "rGFA: %r refused, but the Gfa changed: %r -> %r" % (texts[rt], before, after)
+    except gfapy.Error as e:
+        return True if not makes2 else "rGFA: %r refused with %s, not VersionError" % (texts[rt], type(e).__name__)
+    if makes2:
+        return "rGFA: %r accepted at level %d: version %r" % (texts[rt], vlevel, g.version)
     return True
 
 
@@ -872,11 +896,11 @@ def clone_value_cases():
                 if lines_in(v):
                     return "clone of connected %r: field %s holds a line of the Gfa (%r)" % (str(l), k, type(v).__name__)
     # a clone compares equal to its original (both ways, same text) also when a field holds a value that differs from its own copy
-    # under != though it is written in the same way: JSON given with keys that are not strings (the clone holds the JSON round trip),
+    # under != though it is written in the same way: nested JSON (the clone holds the JSON round trip),
     # and a field that is still text on one side and already parsed on the other (level 0: parsed on first read)
     l = gfapy.Line("S\ts1\t*\tLN:i:10")
-    l.set("xx", {1: "a", 2: [1, 2]})
-    pairs = [("JSON tag with integer keys", l, l.clone())]
+    l.set("xx", {"1": "a", "2": [1, {"b": None}]})
+    pairs = [("nested JSON tag", l, l.clone())]
     for vlevel in (0, 1):
         e = gfapy.Line("E\t*\ta+\tb-\t0\t10\t5\t15$\t10M\txx:J:[1,2]\tyy:B:i,1,2", vlevel=vlevel, version="gfa2")
         c = e.clone()
@@ -961,4 +985,46 @@ def writer_cases():
     v = gfapy.Line("S\tvv\t*", virtual=True)
     if v.to_list()[-1] != "co:Z:GFAPY_virtual_line" or "co:Z:GFAPY_virtual_line" in v.to_list(add_virtual_commentary=False):
         return "virtual commentary wrong: %r" % (v.to_list(),)
+    return True
+
+
+def distribute_links_cases():
+    """concrete battery for Multiplication._distribute_links: a segment with n links on the distributed end (to n different neighbours) and j on the
+    other one, multiplied by k with the links of that end distributed: member m of [original] + copies keeps on that end exactly the links to the
+    neighbours number m .. m+max(n-k,0) (in the order of the original's links), all its links on the other end, and nothing else changes"""
+    for end in ("R", "L"):
+        for n in range(0, 6):
+            for k in range(2, 6):
+                for j in (0, 2):
+                    lines = ["S\tA\t*"] + ["S\tN%d\t*" % x for x in range(n)] + ["S\tM%d\t*" % x for x in range(j)] + ["S\tZ\t*", "L\tZ\t+\tN0\t-\t*" if n else "L\tZ\t+\tZ\t-\t*"]
+                    o, oo = ("+", "-") if end == "R" else ("-", "+")
+                    lines += ["L\tA\t%s\tN%d\t+\t*" % (o, x) for x in range(n)] + ["L\tA\t%s\tM%d\t+\t*" % (oo, x) for x in range(j)]
+                    g = gfapy.Gfa(lines)
+                    other = "L" if end == "R" else "R"
+                    order = [l.other(g.segment("A")).name for l in g.segment("A").dovetails_of_end(end)]
+                    before_other = sorted(str(l) for l in g.dovetails if "A" not in (l.from_name, l.to_name))
+                    g.multiply("A", k, distribute=end)
+                    members = ["A"] + ["A*%d" % x for x in range(2, k + 1)]
+                    d = max(n - k, 0)
+                    for m_, name in enumerate(members):
+                        s_ = g.segment(name)
+                        if s_ is None:
+                            return "n=%d k=%d end=%s: no segment %s" % (n, k, end, name)
+                        got = sorted(l.other(s_).name for l in s_.dovetails_of_end(end))
+                        want = sorted(order[m_:m_ + d + 1])
+                        if got != want:
+                            return "n=%d links on %s, factor %d: member %d (%s) keeps %s, expected the links to %s (window %d..%d of %s)" % (n, end, k, m_, name, got, want, m_, m_ + d, order)
+                        if len(s_.dovetails_of_end(other)) != j:
+                            return "n=%d k=%d end=%s: member %s has %d links on the other end, expected %d" % (n, k, end, name, len(s_.dovetails_of_end(other)), j)
+                    if sorted(str(l) for l in g.dovetails if not any(x in members for x in (l.from_name, l.to_name))) != before_other:
+                        return "n=%d k=%d end=%s: a link that does not touch the segment changed" % (n, k, end)
+                    try:
+                        g.validate()
+                    except gfapy.Error as e:
+                        return "n=%d k=%d end=%s: the graph does not validate after the distribution: %s" % (n, k, end, type(e).__name__)
+    # factor 1 / policy off: nothing is distributed
+    g = gfapy.Gfa(["S\tA\t*", "S\tB\t*", "S\tC\t*", "L\tA\t+\tB\t+\t*", "L\tA\t+\tC\t+\t*"])
+    g.multiply("A", 2, distribute="off")
+    if len(g.dovetails) != 4:
+        return "policy off: %d links after doubling a segment with 2 links" % len(g.dovetails)
     return True
